@@ -485,7 +485,11 @@ cpdef Deserializer find_deserializer(cqltype):
     """Find a deserializer for a cqltype"""
     name = 'Des' + cqltype.__name__
 
-    if name in globals():
+    if issubclass(cqltype, cqltypes.UserType):
+        # the class of a user-defined type carries the name the user gave the type:
+        # it must not select a deserializer by name (a UDT may be called "LongType")
+        cls = DesUserType
+    elif name in globals():
         cls = classes[name]
     elif issubclass(cqltype, cqltypes.ListType):
         cls = DesListType
@@ -493,9 +497,6 @@ cpdef Deserializer find_deserializer(cqltype):
         cls = DesSetType
     elif issubclass(cqltype, cqltypes.MapType):
         cls = DesMapType
-    elif issubclass(cqltype, cqltypes.UserType):
-        # UserType is a subclass of TupleType, so should precede it
-        cls = DesUserType
     elif issubclass(cqltype, cqltypes.TupleType):
         cls = DesTupleType
     elif issubclass(cqltype, cqltypes.DynamicCompositeType):
